@@ -163,7 +163,7 @@ void run_case(Tape& t, Ctx& ctx) {
   bool allow_inf = b3 >= 240;
   if (allow_inf && shortest < 0) shortest = 0.;  // inf - inf has no length: do not ask for zero-length bars there
   double value = base;
-  bool any_value = false, at_far_end = false;
+  bool any_value = false, at_far_end = false, used_inf = false;
   static const unsigned kGrow[] = {0, 8, 12, 16};
   unsigned grow = kGrow[(b3 / 15) % 4];  // during the first `grow` arrows removals are four times rarer
 
@@ -280,7 +280,10 @@ void run_case(Tape& t, Ctx& ctx) {
         cand = base;
       }
       if (allow_inf && any_value && vs == 255 && std::isinf(cand)) at_far_end = true;
-      if (std::isinf(cand)) ctx.hit("infinite-value");
+      if (std::isinf(cand) && !used_inf) {
+        used_inf = true;
+        ctx.hit("infinite-value");
+      }
       any_value = true;
       value = cand;
       s.value = value;
@@ -400,6 +403,7 @@ void run_case(Tape& t, Ctx& ctx) {
       if (x.birth > first_rm_event && steps[size_t(x.birth)].kind == ref::zz::INSERT) later_insert_event = true;
       if (x.death > first_rm_event && steps[size_t(x.death)].kind == ref::zz::INSERT) later_insert_event = true;
     }
+  ctx.hit(nv > 0 ? "cells:simplicial" : nv == -1 ? "cells:cubical" : "cells:CW");
   if (n == 0) ctx.hit("empty-history");
   if (!has_rem) ctx.hit("insertion-only");
   if (has_id) ctx.hit("with-identity");
